@@ -94,15 +94,23 @@ class Sched(Controller):
         return self.counter
 
     # -- coordinator ---------------------------------------------------------------------------
-    def run(self, bodies, join_timeout=6.0):
-        """bodies[i](client_index) runs client i's whole program."""
+    def run(self, bodies, join_timeout=6.0, prepare=None):
+        """bodies[i](client_index) runs client i's whole program.  prepare[i](), if given, runs first in client i's thread,
+        one client after the other and outside the schedule (no yield points): per-thread set-up such as opening the thread's
+        SQLite connection, so that schedule segments address the statements of the judged calls."""
         clients = self.clients
+        prepared = threading.Semaphore(0)
 
         def wrap(c, body):
             def target():
                 c.ident = threading.get_ident()
-                self.by_ident[c.ident] = c
                 try:
+                    try:
+                        if prepare is not None:
+                            prepare[c.idx]()
+                    finally:
+                        self.by_ident[c.ident] = c
+                        prepared.release()
                     c.go.acquire()  # wait for first release
                     body(c.idx)
                 except BaseException as exc:  # harness bug or unexpected escape
@@ -117,6 +125,7 @@ class Sched(Controller):
         for c, body in zip(clients, bodies):
             c.thread = threading.Thread(target=wrap(c, body), daemon=True)
             c.thread.start()
+            prepared.acquire()
 
         steps = 0
         seg = 0
